@@ -56,7 +56,8 @@ Fixpoint join_ext (other:ext) (self:fields_t) {struct other} : res fields_t :=
 (* ---------- scope_extract.__phil_set__(name, optional, multiple, value).
    value = None stands for the marker class scope_extract_is_disabled.
    Non-multiple: a disabled object leaves an existing attribute alone (else it supplies the placeholder None).
-   Multiple: a missing attribute, or the placeholder None left by a disabled namesake, becomes a fresh list. *)
+   Multiple: a disabled object leaves an existing attribute alone too (ceef076); otherwise a missing attribute, or
+   the placeholder None left by a disabled namesake, becomes a fresh list. *)
 Definition phil_set (fs:fields_t) (name:str) (optional:aval) (multiple:bool) (value:option pyval) : res fields_t :=
   if has_dot name then Crash (s_ "AssertionError") else
   match getattr fs name with
@@ -73,28 +74,32 @@ Definition phil_set (fs:fields_t) (name:str) (optional:aval) (multiple:bool) (va
         end
       end
     else
-      let '(fs1, nodev) :=
-        match node with
-        | LField VNone | LMissing | LBuiltin => (fset name (VScopeList optional []) fs, VScopeList optional [])
-        | LField x => (fs, x)
-        end in
-      match value with
-      | None => Ok fs1
-      | Some v =>
-        if not_none v || negb (is_true optional) then
-          match nodev with
-          | VScopeList o l => Ok (fset name (VScopeList o (l ++ [v])) fs1)
-          | VList l => Ok (fset name (VList (l ++ [v])) fs1)
-          | VWords _ => unmodelled "append to the word list of the tree"
-          | _ => Crash (s_ "AttributeError")               (* no append method *)
-          end
-        else Ok fs1
+      match value, node with
+      | None, LField _ => Ok fs                              (* disabled, attribute exists (None too): return *)
+      | _, _ =>
+        let '(fs1, nodev) :=
+          match node with
+          | LField VNone | LMissing | LBuiltin => (fset name (VScopeList optional []) fs, VScopeList optional [])
+          | LField x => (fs, x)
+          end in
+        match value with
+        | None => Ok fs1
+        | Some v =>
+          if not_none v || negb (is_true optional) then
+            match nodev with
+            | VScopeList o l => Ok (fset name (VScopeList o (l ++ [v])) fs1)
+            | VList l => Ok (fset name (VList (l ++ [v])) fs1)
+            | VWords _ => unmodelled "append to the word list of the tree"
+            | _ => Crash (s_ "AttributeError")               (* no append method *)
+            end
+          else Ok fs1
+        end
       end
   end.
 
 Section Oracles.
   Variable pyeval : str -> option Conv.evr.
-  Variable expanduser : str -> str.
+  Variable expanduser : str -> option str.
 
   (* ---------- definition.extract / format *)
   Definition def_from_words (h:hdr) (a:attrs) (ws:list word) : res pyval :=
@@ -346,7 +351,7 @@ Fixpoint reach (anc:list (option str)) (path:list str) (v:pyval) {struct v} : li
 
 Section Rendering.
   Variable pyeval : str -> option Conv.evr.
-  Variable expanduser : str -> str.
+  Variable expanduser : str -> option str.
 
   (* extract_format(source).as_str() of a definition or a (non-root or root) scope: the canonical
      rendering that fetch compares *)
@@ -407,17 +412,18 @@ Definition aphil_set (fs:sfields) (name:str) (multiple:bool) (value:option shp) 
     | Some s, _ => Some (aset name s fs)
     end
   else
-    match aget name fs with
-    | None | Some HNone => Some (aset name HSList fs)
-    | Some HSList => Some fs
-    | Some HFlat => None
-    | Some (HScope _) => match value with None => Some fs | Some _ => None end
+    match value, aget name fs with
+    | None, Some _ => Some fs
+    | _, None | _, Some HNone => Some (aset name HSList fs)
+    | _, Some HSList => Some fs
+    | Some _, Some HFlat | Some _, Some (HScope _) => None
     end.
 
-(* the types whose from_words reads words[0] for an error message / asserts a non-empty list *)
+(* the types whose from_words reads words[0] for an error message / asserts a non-empty list
+   (path: only when os.path.expanduser refuses the text) *)
 Definition needs_words (a:attrs) : bool :=
   match get_attr (s_ "type") a with
-  | AType (TyBool | TyInt _ _ _ | TyInts _ _ _ _ _ _ | TyChoice _) => true
+  | AType (TyBool | TyInt _ _ _ | TyInts _ _ _ _ _ _ | TyChoice _ | TyPath) => true
   | _ => false
   end.
 Definition def_wf (ws:list word) (a:attrs) : bool :=
